@@ -811,6 +811,76 @@ def run_opt_tables(unit, res):
 
 
 # ---------------------------------------------------------------------------------------------
+# VOGP_AD (ninth algorithm): reuse the C18 explorer with C06 / C07 transition checks
+
+
+def ad_extra_check(prop, res):
+    def check(before, alg, done, calls, bad):
+        S0, P0, S1, P1 = set(before.S), set(before.P), set(alg.S), set(alg.P)
+        ds0, ds1 = before.design_space, alg.design_space
+        n0, n1 = len(ds0.points), len(ds1.points)
+        new_nodes = set(range(n0, n1))
+        n_rows = sum(len(np.atleast_2d(c["x"])) for c in calls)
+        if prop == "C06":
+            if S1 & P1:
+                return bad("S-P-overlap", "disjoint", sorted(S1 & P1), "S and P overlap")
+            if not (S1 - new_nodes) <= S0:
+                return bad("S-grows", "S shrinks up to refinement", sorted((S1 - new_nodes) - S0), "an old node (re)entered S")
+            if not (P0 - P1) <= {i for i in P0 if i not in P1 and n1 > n0}:
+                return bad("P-shrinks", "P grows up to refinement", sorted(P0 - P1), "a node left P")
+            if (P0 - P1) and not new_nodes:
+                return bad("P-shrinks", "P grows up to refinement", sorted(P0 - P1), "a node left P without being refined")
+            if alg.round != before.round + 1:
+                return bad("round-step", before.round + 1, alg.round, "round counter did not advance by exactly one on an active step")
+            if bool(done) != (len(S1) == 0):
+                return bad("completion-flag", len(S1) == 0, bool(done), "completion reported wrongly")
+            if alg.sample_count - before.sample_count != n_rows:
+                return bad("sample-count", n_rows, alg.sample_count - before.sample_count, "sample_count differs from the evaluations requested")
+            if new_nodes and n_rows:
+                return bad("refine-and-evaluate", "one of them", [sorted(new_nodes), n_rows], "a round both refined a node and took a sample")
+            core.bump(res, "c06_ad_transitions_checked")
+            if done:
+                snap = (set(alg.S), set(alg.P), alg.round, alg.sample_count, len(alg.design_space.points))
+                nc = len(alg.problem.calls)
+                for _ in range(2):
+                    r = alg.run_one_step()
+                    if r is not True or (set(alg.S), set(alg.P), alg.round, alg.sample_count, len(alg.design_space.points)) != snap or len(alg.problem.calls) != nc:
+                        return bad("post-completion-change", "nothing changes", {"ret": r}, "a step after completion changed state or took samples")
+                core.bump(res, "c06_ad_post_completion_checked")
+        else:
+            # C07: the candidate is the active node with the largest displayed diagonal; it is refined or evaluated
+            W1 = (S1 | P1) - new_nodes
+            act = sorted(((S1 | P1) - new_nodes) | ((S0 | P0) - (S1 | P1)))  # active at decision time = after covering, before refine
+            act = [i for i in act if i < n0]
+            # active set at evaluate_refine time: S after discarding/covering united with P
+            if n_rows:
+                x = np.atleast_2d(calls[0]["x"])[0]
+                idx = int(np.argmin(np.max(np.abs(ds1.points - x), axis=1)))
+                if idx not in (S1 | P1):
+                    return bad("inactive-design-sampled", sorted(S1 | P1), idx, "an observation was requested for a node that is not active")
+                diag = {i: float(np.linalg.norm(ds1.confidence_regions[i].upper - ds1.confidence_regions[i].lower)) for i in (S1 | P1)}
+                if diag[idx] < max(diag.values()) - 1e-12:
+                    return bad("not-acquisition-maximiser", max(diag.values()), diag[idx], f"node {idx} (diagonal {diag[idx]:.6g}) was evaluated, the largest diagonal among active nodes is {max(diag.values()):.6g}")
+                if len(alg.model.added) != 1 or not np.allclose(np.atleast_2d(alg.model.added[0][0])[0], x) or not np.array_equal(np.asarray(alg.model.added[0][1], float), np.asarray(calls[0]["out"], float)):
+                    return bad("model-data-value", "the returned observation", "different", "the model did not receive exactly the returned observation")
+                core.bump(res, "c07_ad_evaluations_checked")
+            elif alg.model.added:
+                return bad("model-data-count", 0, len(alg.model.added), "samples were added to the model although none was requested")
+        return None
+    return check
+
+
+def run_adrun(unit, res, replay=None):
+    from checks import c18
+
+    _, prop, d, depth_max, which, spec, eps, horizon = unit
+    core.import_vopy()
+    c18.run_ad(("ad", d, depth_max, which, spec, eps, horizon), res, replay=replay, extra_check=ad_extra_check(prop, res), prop=prop)
+    for v in res["violations"]:
+        v["case"] = {"mode": "adrun", "unit": list(unit), "path": v["case"].get("path", [])}
+
+
+# ---------------------------------------------------------------------------------------------
 # units
 
 
@@ -824,6 +894,10 @@ def units(ctx, prop):
     if prop == "C07":
         for n in (1, 2, 3, 4, 5):
             us.append(("opt", prop, n, ctx.thorough))
+    for d, depth_max in ((1, 2), (1, 3), (2, 2)):
+        for which in ("mono", "front", "wave"):
+            for spec in ([("comp", 2), ("theta", 120)] if not ctx.thorough else [("comp", 2), ("theta", 60), ("theta", 120)]):
+                us.append(("adrun", prop, d, depth_max, which, spec, 0.1, 40 if d == 1 else 14))
     return us
 
 
@@ -835,6 +909,8 @@ def run_unit(unit):
         run_real(unit, res)
     elif unit[0] == "opt":
         run_opt_tables(unit, res)
+    elif unit[0] == "adrun":
+        run_adrun(unit, res)
     return res
 
 
@@ -848,6 +924,11 @@ def replay_case(case):
     res = core.new_result()
     if case["mode"] in ("opt", "optdec"):
         run_opt_tables(("opt", "C07", case.get("n", 3), False), res)
+        return res["violations"]
+    if case["mode"] == "adrun":
+        u = list(case["unit"])
+        u[5] = _fix_spec(u[5])
+        run_adrun(tuple(u), res, replay=case["path"])
         return res["violations"]
     if case["mode"] == "stubrun":
         cfg = dict(case["cfg"], _mu=case["mu"])
